@@ -377,3 +377,9 @@ package op
 //@   loop util.Set.All$1/0 invariant ptrsOK(m)
 //@   loop util.Set.All$1/0 invariant nonEmpty(m)
 //@   loop util.Set.All$1/0 invariant forall(k, Key, rangedom(k) == dom(m.scales, k))
+
+// a meter read from YAML: zero numerator or denominator refused (C09)
+//@ func Meter.UnmarshalYAML returns (err)
+//@   modifies m, util.Rat
+//@   requires m != nil && value != nil
+//@   ensures err == nil ==> m.Num >= 1 && m.Denom >= 1
